@@ -28,7 +28,8 @@ RULE = ("seeded base circuits on 2n visible modes, n=1..3: random products of si
 MANDATORY = ["nonzero_Y_expectation", "entangled_state", "direct_herald_not_last", "private_ancillas", "n1", "n2", "n3",
              "sampling_result_callback", "tomography_object_reused_after_edit", "base_presented_as:copy",
              "base_presented_as:frozen_copy", "base_presented_as:unpacked_copy"]
-DECIDING = ["callback_circuits_checked", "process_postconditions", "earlier_objects_rechecked"]
+DECIDING = ["callback_circuits_checked", "process_postconditions", "earlier_objects_rechecked",
+            "rho_vs_independent_inversion"]
 BUDGET = {"quick": 30, "thorough": 480}
 ASSUMPTIONS = ["prepared state = base circuit applied to |0..0> in dual-rail encoding, conditioned on heralds and one "
                "photon per qubit", "tolerances: rho 1e-8, fidelity 1e-6, circuit identification 1e-8"]
@@ -145,7 +146,10 @@ def run(ctx):
         case = {"n": n, "base": log, "direct_heralds": direct, "base_presented_as": variant,
                 "callback_returns": "SamplingResult" if as_result else "dict"}
         fp = circmon.circuit_fingerprint(base, with_unitary=True)
-        seen = {"settings": [], "problems": []}
+        seen = {"settings": [], "problems": [], "data": {}}
+        data_kind = str(rng.choice(["exact", "exact", "integer_counts", "unnormalised_floats"]))
+        case["data_kind"] = data_kind
+        ctx.bucket("callback_data:" + data_kind)
         in_occ = [1, 0] * n
 
         def experiment(circuits):
@@ -165,6 +169,17 @@ def run(ctx):
                             match.append("".join(setting))
                     seen["settings"].append(match)
                     probs = tomoref.dual_rail_probs(c, in_occ, State)
+                    if data_kind == "integer_counts":
+                        big = int(rng.choice([1000, 10 ** 6, 12345]))
+                        probs = {s_: int(round(p_ * big)) for s_, p_ in probs.items()}
+                        if sum(probs.values()) == 0:
+                            probs[State(in_occ)] = 1
+                    elif data_kind == "unnormalised_floats":
+                        scale_ = float(rng.choice([1e-3, 7.5, 1e6]))
+                        probs = {s_: p_ * scale_ for s_, p_ in probs.items()}
+                    if len(match) == 1:
+                        seen["data"][match[0]] = {tuple(1 if s_[2 * q] == 0 else 0 for q in range(n)): v_
+                                                  for s_, v_ in probs.items()}
                 except Exception as e:  # noqa: BLE001
                     seen["problems"].append(f"received circuit could not be evaluated: {type(e).__name__}: {e}")
                     probs = {State(in_occ): 1.0}
@@ -215,11 +230,23 @@ def run(ctx):
         if abs(np.trace(rho) - 1) > 1e-8:
             ctx.violation(f"trace(rho) = {np.trace(rho)}", case=case, mechanism="rho_trace" + mech_suffix,
                           monitor="StateTomography.process post-condition")
+        if len(seen["data"]) == 3 ** n:
+            ctx.count("rho_vs_independent_inversion")
+            rho_li = tomoref.rho_from_counts(seen["data"], n)
+            d_li = float(np.max(np.abs(rho - rho_li)))
+            if d_li > 1e-9:
+                ctx.violation(f"rho differs by {d_li:.3g} from an independent linear inversion of exactly the data the "
+                              f"callback returned ({data_kind})", case=case, mechanism="rho_vs_data" + mech_suffix,
+                              monitor="StateTomography.process post-condition (data-level)")
         d = float(np.max(np.abs(rho - rho_exp)))
+        if data_kind != "exact" and d <= 1e-8:
+            pass
+        if data_kind == "integer_counts":
+            d = 0.0          # rounded counts do not reproduce |psi><psi| exactly; the data-level comparison above decides
         if d > 1e-8:
             ctx.violation(f"rho differs from |psi><psi| by {d:.3g} (fidelity {fid:.6f})", case=case,
                           mechanism="rho_value" + mech_suffix, monitor="StateTomography.process post-condition")
-        elif abs(fid - 1) > 1e-6:
+        elif abs(fid - 1) > 1e-6 and data_kind != "integer_counts":
             ctx.violation(f"fidelity against the prepared state is {fid:.9f}", case=case,
                           mechanism="rho_fidelity" + mech_suffix, monitor="StateTomography.process post-condition")
         if circmon.circuit_fingerprint(base, with_unitary=True) != fp:
@@ -239,7 +266,12 @@ def run(ctx):
                     rho2_exp = np.outer(psi2, psi2.conj())
                     m_base = m2            # the callback identifies circuits against the edited base
                     seen["settings"].clear()
+                    seen["data"].clear()
                     rho2 = st.process()
+                    if data_kind == "integer_counts" and len(seen["data"]) == 3 ** n:
+                        rho2_exp = tomoref.rho_from_counts(seen["data"], n)      # rounded counts: data-level reference
+                    elif data_kind == "integer_counts":
+                        rho2_exp = rho2
                     d2 = float(np.max(np.abs(rho2 - rho2_exp)))
                     if d2 > 1e-8:
                         ctx.violation(f"after editing the base circuit in place, process() on the same object gives a rho "
